@@ -476,6 +476,47 @@ def run(chk, facts, tier, only=None):
                        f"{name} is not `the field ids are exactly 0, 1, .., n-1 in order` ({why}): the tuple shorthand would drop "
                        f"labels that the grammar's numbering does not re-create",
                        f"{h['span']['file']}:{h['span']['lo']}", ok_detail="true exactly for ids 0..n-1 (30 id sequences over {0..3}, Id and Unnamed)")
+        # (a'') a field is printed without its label (the positional shorthand `record { nat; text }`) only on behalf of a *record*: the
+        #       grammar re-creates ids 0..n-1 for unlabelled record fields, while an unlabelled variant field `variant { nat }` is the tag `nat`
+        def positional_sites(g):
+            out = []
+            for x in walk(g["body"]):
+                if x.get("k") == "mcall" and x["m"] == "map" and x.get("args") and x["args"][0].get("k") == "closure":
+                    cl = x["args"][0]
+                    body = unblock(cl["body"])
+                    fields_used = {y["n"] for y in walk(body) if y.get("k") == "field" and ("Field" in str(y.get("bty") or ""))}
+                    prints_ty = body.get("k") == "call" and re.search(r"pretty::candid::pp_ty\w*$", callee(body) or "")
+                    if prints_ty and fields_used == {"ty"}:
+                        out.append(x)
+            return out
+
+        def record_only(g, node, depth=0):
+            """is `node` (inside function g) reached only on behalf of a Record?"""
+            arms = [(m, a) for m in nodes(g["body"], "match") if m.get("src") == "Normal" and "TypeInner" in str(m.get("sty"))
+                    for a in m["arms"] if any(y is node for y in walk(a["body"]))]
+            if arms:
+                return all(set(v.rsplit("::", 1)[-1] for v in pat_variants(a["pat"]) if "TypeInner::" in v) == {"Record"} for _m, a in arms)
+            if depth >= 2:
+                return False
+            callers = []
+            for k2, g2 in c.hir.items():
+                if not k2.startswith("candid::pretty::candid::") or "value::" in k2:
+                    continue
+                for y in walk(g2["body"]):
+                    if y.get("k") == "call" and callee(y) == g["key"]:
+                        callers.append((g2, y))
+            return bool(callers) and all(record_only(g2, y, depth + 1) for g2, y in callers)
+        nsites = 0
+        for k2, g in sorted(c.hir.items()):
+            if not k2.startswith("candid::pretty::candid::") or "::value::" in k2 or g.get("kind") not in ("Fn", "AssocFn"):
+                continue
+            for site in positional_sites(g):
+                nsites += 1
+                chk.expect(record_only(g, site), f"positional-shorthand:only-for-records:{fshort(g)}",
+                           f"{k2} prints fields without their labels (`fs.iter().map(|f| pp_ty(&f.ty))`) on a path that is not confined to `TypeInner::Record`: "
+                           f"`variant {{ 0 : nat; 1 : text }}` is then printed as `variant {{ nat; text }}`, which re-checks as the tags `nat` and `text`",
+                           where=f"{g['span']['file']}:{site.get('ln')}", ok_detail="inside / called only from the Record arm")
+        chk.floor("positional (label-less) field printing sites in the type printer", nsites, 2)
         # Debug for IDLValue::Record elides a label exactly when its id equals the position
         h = c.fn(r"Debug for candid::types::value::IDLValue>::fmt$")
         rows = [r for r in arm_rows(the_match(h, r"IDLValue$", 20)) if any(hd[0] == IV + "Record" for hd in r["heads"])]
